@@ -328,3 +328,25 @@ def _cases(run):
             yield f"extabs {x} {rng.randint(0, 4)} {rng.randint(0, 4)}"
             yield f"extrel {x} {rng.randint(0, 4)} {rng.randint(0, 4)}"
             yield f"shift {x} {rng.randint(-3, 3)}"
+    # ---- 5. operands with MANY blocks and an operand whose edges sit exactly on / next to block edges -------------
+    # (bisection / index based fast paths start at some block count and go wrong at `start == other.end - 1`-like edges)
+    nmany = 60 if quick else 1500
+    for _ in range(nmany):
+        k = rng.randint(8, 20)
+        ba = gen_loc.random_layout(rng, max_blocks=k, max_coord=12 * k, p_overlap=0.0, p_empty=0.05)
+        while len(ba) < 8:
+            ba = gen_loc.random_layout(rng, max_blocks=k, max_coord=12 * k, p_overlap=0.0, p_empty=0.05)
+        edges = sorted({max(0, v + d) for s_, e_ in ba for v in (s_, e_) for d in (-1, 0, 1)})
+        sa = rng.choice("+-")
+        par = NOPAR
+        a = ploc(par, "C", sa, ba)
+        run.count("many-blocks:%d+" % (len(ba) // 4 * 4))
+        for _j in range(4):
+            x, y = sorted(rng.sample(edges, 2))
+            b = ploc(par, "S", sa if rng.random() < 0.8 else rng.choice("+-."), [(x, y)])
+            yield from binary_ops(a, b, ms_fs=[(rng.choice("01"), "0")], dists=("inner",))
+            yield from binary_ops(b, a, ms_fs=[(rng.choice("01"), "0")], dists=("inner",))
+        # two many-block operands sharing edges
+        bb = [(s_, e_) for (s_, e_) in ba if rng.random() < 0.6] or ba[:1]
+        bb = [(s_ + rng.choice([0, 0, 1]), max(s_ + 1, e_ - rng.choice([0, 0, 1]))) for s_, e_ in bb]
+        yield from binary_ops(a, ploc(par, "C" if len(bb) > 1 else "S", sa, bb), ms_fs=[("1", "0")], dists=("inner",))
